@@ -345,7 +345,8 @@ pub fn json_to_js_value_with_guard(
             let obj = interp.create_object(guard);
             for (key, value) in map {
                 let js_value = json_to_js_value_with_guard(interp, value, guard)?;
-                let interned_key = PropertyKey::String(interp.intern(key));
+                // Canonical key: "1" must land in the Index(1) slot that `o[1]` / `o["1"]` read
+                let interned_key = interp.property_key(key);
                 obj.borrow_mut().set_property(interned_key, js_value);
             }
             JsValue::Object(obj)
